@@ -14,6 +14,8 @@ namespace Ivg.SpecL
 open Ivg Num Codec Dec DecL
 open Ivg.Spec
 
+set_option linter.constructorNameAsVariable false
+
 deriving instance DecidableEq for Ivg.Spec.FFV0.Styling
 deriving instance DecidableEq for Ivg.Spec.FFV0.Drawing
 
